@@ -34,18 +34,19 @@ def hs(prefix, module, ns, bound_fmt, functions, complete=False):
     return [H(f'{prefix}{n}', module, bound_fmt.format(n=n) if bound_fmt else None, complete, functions) for n in ns]
 
 
+PN = ['src/poly.rs: impl Evaluate for PolyN :: evaluate']
 PW_EVAL = ['src/piecewise.rs: impl Evaluate for Piecewise<T> :: evaluate']
 EV_FNS = ['src/piecewise.rs: PiecewiseEvaluator::new', 'src/piecewise.rs: PiecewiseEvaluator::evaluate']
 
 PROPS = {
     'C01': {
         'verus': ['u_polyeval', 'u_fme_ident', 'u_fme_lemmas', 'u_polyeval_fme'],
-        'kani': {'quick': [{'set': 'c01', 'jobs': 8, 'timeout': 1500, 'extra': ['--solver', 'kissat'],
-                            'harnesses': [H(f'c01_polyn_{n}', 'poly', f'length {n}; integer-valued coefficients in [-100,100]; x in {{0, 1, -1, 2}}', False,
-                                            ['src/poly.rs: impl Evaluate for PolyN :: evaluate']) for n in (0, 1, 2, 3, 4)]}],
-                 'thorough': [{'set': 'c01', 'jobs': 8, 'timeout': 6000, 'extra': ['--solver', 'kissat'],
-                               'harnesses': [H(f'c01_polyn_{n}', 'poly', f'length {n}; integer-valued coefficients in [-100,100]; x in {{0, 1, -1, 2}}', False,
-                                               ['src/poly.rs: impl Evaluate for PolyN :: evaluate']) for n in (0, 1, 2, 3, 4, 5, 6, 8)]}]},
+        'kani': {'quick': [{'set': 'c01', 'jobs': 8, 'timeout': 2400, 'extra': ['--solver', 'kissat'],
+                            'harnesses': [H(f'c01_polyn_{n}', 'poly', f'length {n}; integer-valued coefficients in [-100,100]; x in {{0, 1, -1, 2}}', False, PN) for n in (0, 1, 2, 3, 4)] +
+                                         [H(f'c01_polyn_pm1_{n}', 'poly', f'length {n}; integer-valued coefficients in [-100,100]; x in {{0, 1, -1}}', False, PN) for n in (5, 6, 7)]}],
+                 'thorough': [{'set': 'c01', 'jobs': 8, 'timeout': 9000, 'extra': ['--solver', 'kissat'],
+                               'harnesses': [H(f'c01_polyn_{n}', 'poly', f'length {n}; integer-valued coefficients in [-100,100]; x in {{0, 1, -1, 2}}', False, PN) for n in (0, 1, 2, 3, 4, 5, 6, 7, 8)] +
+                                            [H(f'c01_polyn_pm1_{n}', 'poly', f'length {n}; integer-valued coefficients in [-100,100]; x in {{0, 1, -1}}', False, PN) for n in (9, 10, 11, 12)]}]},
         'probe': True,
         'level': 'other',
         'explanation': 'Verus contracts on the real bodies of Poly0..Poly8::evaluate and Log<T>::evaluate: result == sum_i c_i x^i '
@@ -53,8 +54,8 @@ PROPS = {
                        'Poly1..Poly8): in the standard model of floating-point arithmetic (every `*` and `mul_add` returns the exact result times (1+d), |d| <= 2^-53) '
                        '|evaluate(x) - sum c_i x^i| <= 4(n+2) 2^-53 sum |c_i||x|^i, whatever scheme the code uses: the hint generator tracks, per operation, the exact value E, the '
                        'magnitude M and a rounding count k and calls lemma_fma_step / lemma_mul_step (units u_fme_lemmas, u_fme_ident); k <= 8 on every path, the property allows 4(n+2). PolyN::evaluate (iterator fold, outside '
-                       'the Verus subset): Kani harness, bit-equal to the Horner recursion h(i) = h(i+1).mul_add(x, c[i]), empty = 0.0, for lengths 0..4 (quick) / 0..8 '
-                       '(thorough), integer-valued coefficients and x in {0, 1, -1, 2} (bounded).',
+                       'the Verus subset): Kani harness, bit-equal to the Horner recursion h(i) = h(i+1).mul_add(x, c[i]), empty = 0.0, for lengths 0..4 with x in {0,1,-1,2} and 5..7 with x in {0,1,-1} (quick) / '
+                       '0..8 resp. 9..12 (thorough), integer-valued coefficients (bounded).',
         'assumptions': [FM_NOTE, FM_BITS, Z3W,
                         'rounding clause: standard model FM-E (relative error <= 2^-53 per operation; overflow/underflow excluded, as the property does); decided for Poly0..Poly8, '
                         'NOT for Log<T> (needs an error model of ln) and NOT for PolyN',
